@@ -54,11 +54,26 @@ structure Event where
   args : List Arg
   deriving Repr, BEq, DecidableEq
 
-/-- facts about the library functions the model of Model/C08.lean follows: comparison
-    operators (function, expression), calls with constant arguments (function, callee,
-    arguments), the stats records sent (function, field := expression), constants -/
+/-- an operand of a comparison: an integer literal, or any other expression (as text in which
+    the names of receiver, parameters and locals have been normalised: `recv`, `p0…`, `v0…`) -/
+inductive Opnd where
+  | var (s : String)
+  | lit (n : Int)
+  deriving Repr, BEq, DecidableEq
+
+/-- a comparison found in a library function -/
+structure Cmp where
+  fn : String
+  lhs : Opnd
+  op : String
+  rhs : Opnd
+  deriving Repr, BEq, DecidableEq
+
+/-- facts about the library functions the model of Model/C08.lean follows: comparisons,
+    calls with their arguments (function, callee, arguments), the stats records sent
+    (function, field := expression), constants.  Local names are normalised by the extractor. -/
 structure LibFacts where
-  comparisons : List (String × String)
+  comparisons : List Cmp
   calls : List (String × String × List String)
   records : List (String × List (String × String))
   consts : List (String × String)
@@ -105,28 +120,76 @@ def expectedGlue : Glue where
       [.sum ["st.Id"], .sum ["st.Tree1"], .sum ["st.Common"], .sum ["st.Tree2"]]⟩]
   lib := {
     comparisons := [
-      ("Compare", "cpus < 1"), ("Compare", "cpu < cpus"), ("Compare", "total2 != total"),
-      ("lengthOrZero", "e.Length() == NIL_LENGTH"),
-      ("CompareWeighted", "cpus < 1"), ("CompareWeighted", "cpu < cpus"), ("CompareWeighted", "refLen != compLen"),
-      ("CompareTipIndexes", "len(t.tipIndex) == 0"), ("CompareTipIndexes", "len(t2.tipIndex) == 0"),
-      ("CompareTipIndexes", "len(t.tipIndex) != len(t2.tipIndex)"),
-      ("FindEdge", "e.Right().Tip() != e2.Right().Tip()"), ("FindEdge", "e.HashCode() != e2.HashCode()")]
+      ⟨"Compare", .var "p4", "<", .lit 1⟩, ⟨"Compare", .var "v0", "<", .var "p4"⟩, ⟨"Compare", .var "v1", "!=", .var "v2"⟩,
+      ⟨"lengthOrZero", .var "p0.Length()", "==", .var "NIL_LENGTH"⟩,
+      ⟨"CompareWeighted", .var "p4", "<", .lit 1⟩, ⟨"CompareWeighted", .var "v0", "<", .var "p4"⟩,
+      ⟨"CompareWeighted", .var "v1", "!=", .var "v2"⟩,
+      ⟨"CompareTipIndexes", .var "len(recv.tipIndex)", "==", .lit 0⟩, ⟨"CompareTipIndexes", .var "len(p0.tipIndex)", "==", .lit 0⟩,
+      ⟨"CompareTipIndexes", .var "len(recv.tipIndex)", "!=", .var "len(p0.tipIndex)"⟩,
+      ⟨"FindEdge", .var "recv.Right().Tip()", "!=", .var "v0.Right().Tip()"⟩,
+      ⟨"FindEdge", .var "recv.HashCode()", "!=", .var "v0.HashCode()"⟩]
     calls := [
       ("Compare", "NewEdgeIndex", ["0.75"]),
-      ("Compare", "PutEdgeValue", ["e", "i", "e.Length()"]),
-      ("Compare", "Value", ["e2"]),
+      ("Compare", "PutEdgeValue", ["v0", "v1", "v0.Length()"]),
+      ("Compare", "Value", ["v0"]),
       ("CompareWeighted", "NewEdgeIndex", ["0.75"]),
-      ("CompareWeighted", "PutEdgeValue", ["e", "i", "lengthOrZero(e)"]),
+      ("CompareWeighted", "PutEdgeValue", ["v0", "v1", "lengthOrZero(v0)"]),
       ("CompareWeighted", "NewEdgeIndex", ["0.75"]),
-      ("CompareWeighted", "PutEdgeValue", ["e", "i", "lengthOrZero(e)"]),
-      ("CompareWeighted", "Value", ["compEdge"]),
-      ("CompareWeighted", "Value", ["refEdge"])]
+      ("CompareWeighted", "PutEdgeValue", ["v0", "v1", "lengthOrZero(v0)"]),
+      ("CompareWeighted", "Value", ["v0"]),
+      ("CompareWeighted", "Value", ["v0"])]
     records := [
-      ("Compare", [("Id", "treeV.Id"), ("Tree1", "total - common"), ("Tree2", "total2 - common"),
-                   ("Common", "common"), ("Sametree", "sametree"), ("Err", "inerr")]),
-      ("CompareWeighted", [("Id", "treeV.Id"), ("Tree1", "Ref"), ("Tree2", "Comp"),
-                           ("Common", "Common"), ("Sametree", "sametree"), ("Err", "inerr")])]
+      ("Compare", [("Id", "v0.Id"), ("Tree1", "v1 - v2"), ("Tree2", "v3 - v2"),
+                   ("Common", "v2"), ("Sametree", "v4"), ("Err", "v5")]),
+      ("CompareWeighted", [("Id", "v0.Id"), ("Tree1", "v1"), ("Tree2", "v2"),
+                           ("Common", "v3"), ("Sametree", "v4"), ("Err", "v5")])]
     consts := [("NIL_LENGTH", "-1.0")] }
+
+/- ## comparing a regenerated table with the expected one
+
+  Everything is compared literally except the comparisons, which are compared by what they
+  compute: two comparisons of the same function over the same operands are equivalent when they
+  have the same truth value for every assignment of the probes -2 … 2 to their operands (so
+  `cpus <= 0` or `1 > cpus` stand for `cpus < 1`). -/
+
+def Opnd.eval (env : String → Int) : Opnd → Int
+  | .var s => env s
+  | .lit n => n
+
+def Cmp.eval (c : Cmp) (env : String → Int) : Bool :=
+  let a := c.lhs.eval env
+  let b := c.rhs.eval env
+  if c.op == "<" then decide (a < b) else if c.op == "<=" then decide (a ≤ b)
+  else if c.op == ">" then decide (b < a) else if c.op == ">=" then decide (b ≤ a)
+  else if c.op == "==" then a == b else a != b
+
+def Opnd.vars : Opnd → List String
+  | .var s => [s]
+  | .lit _ => []
+
+def Cmp.vars (c : Cmp) : List String := (c.lhs.vars ++ c.rhs.vars).eraseDups
+
+def probeVals : List Int := [-2, -1, 0, 1, 2]
+
+/-- all assignments of the probes to (at most two) operands -/
+def probeEnvs : List String → List (String → Int)
+  | [] => [fun _ => 0]
+  | [x] => probeVals.map fun a => fun s => if s == x then a else 0
+  | x :: y :: _ => probeVals.flatMap fun a => probeVals.map fun b => fun s => if s == x then a else if s == y then b else 0
+
+def cmpEquiv (a b : Cmp) : Bool :=
+  a.fn == b.fn && a.vars.all (b.vars.contains ·) && b.vars.all (a.vars.contains ·) &&
+  (probeEnvs a.vars).all fun env => a.eval env == b.eval env
+
+def cmpsEquiv : List Cmp → List Cmp → Bool
+  | [], [] => true
+  | a :: as, b :: bs => cmpEquiv a b && cmpsEquiv as bs
+  | _, _ => false
+
+/-- the regenerated table `g` says what the expected table `e` says -/
+def glueOK (g e : Glue) : Bool :=
+  g.flags == e.flags && g.events == e.events && cmpsEquiv g.lib.comparisons e.lib.comparisons &&
+  g.lib.calls == e.lib.calls && g.lib.records == e.lib.records && g.lib.consts == e.lib.consts
 
 /- ## the interpreter -/
 
@@ -271,6 +334,106 @@ def cliOutput (g : Glue) (f : Flags) (r : T) (cs : List T) : Option (String × B
   | some (rows, failed) =>
     let rows := if failed && deferred g f then [] else rows
     some (String.join (headerOf g f ++ rows), failed)
+  | none => none
+
+/- ## `--weighted` without `--binary`: the `%E` rows as text
+
+  `wrf` and `kf2` (Model/C08.lean) are the exact sums; the command prints `wrf` and `math.Sqrt(kf)`
+  with `%E` (one digit, six decimals, exponent of at least two digits).  On the generated inputs
+  the float64 sums are exact (dyadic lengths) and `math.Sqrt` is correctly rounded, so the text is
+  the correctly rounded decimal of the exact value (assumption: the square root is not within
+  2^-53 of a 7-digit rounding boundary). -/
+
+def pow10 (e : Int) : Rat := if e ≥ 0 then ((10 ^ e.toNat : Nat) : Rat) else 1 / ((10 ^ (-e).toNat : Nat) : Rat)
+
+/-- `e` with `10^e ≤ q < 10^(e+1)` for `q > 0` (fuel: number of steps) -/
+def dexpAux : Nat → Rat → Int → Int
+  | 0, _, e => e
+  | n + 1, q, e => if q ≥ 10 then dexpAux n (q / 10) (e + 1) else if q < 1 then dexpAux n (q * 10) (e - 1) else e
+
+def dexp (q : Rat) : Int := dexpAux 700 q 0
+
+/-- floor of the square root, by bisection: invariant `lo² ≤ n < hi²` -/
+def isqrtAux (n : Nat) : Nat → Nat → Nat → Nat
+  | 0, lo, _ => lo
+  | f + 1, lo, hi =>
+    if lo + 1 ≥ hi then lo else
+    let mid := (lo + hi) / 2
+    if mid * mid ≤ n then isqrtAux n f mid hi else isqrtAux n f lo mid
+
+def isqrt (n : Nat) : Nat := isqrtAux n (n.log2 + 2) 0 (n + 1)
+
+def padLeft0 (w : Nat) (s : String) : String := String.ofList (List.replicate (w - s.length) '0') ++ s
+
+/-- mantissa `m` (7 digits, `10^6 ≤ m < 10^7`) and exponent as `d.ddddddE±xx` -/
+def sciText (neg : Bool) (m : Nat) (e : Int) : String :=
+  let (m, e) := if m ≥ 10000000 then (m / 10, e + 1) else (m, e)
+  let d := padLeft0 7 (toString m)
+  (if neg then "-" else "") ++ String.ofList (d.toList.take 1) ++ "." ++ String.ofList (d.toList.drop 1) ++ "E" ++
+    (if e < 0 then "-" else "+") ++ padLeft0 2 (toString e.natAbs)
+
+/-- nearest natural number, ties to even -/
+def roundHE (q : Rat) : Nat :=
+  let f := q.floor.toNat
+  let r := q - (f : Rat)
+  if r < 1 / 2 then f else if r > 1 / 2 then f + 1 else if f % 2 == 0 then f else f + 1
+
+/-- `fmt.Sprintf("%E", q)` for an exactly represented value -/
+def fmtE (q : Rat) : String :=
+  if q == 0 then "0.000000E+00" else
+  let a := if q < 0 then -q else q
+  let e := dexp a
+  sciText (q < 0) (roundHE (a * pow10 (6 - e))) e
+
+/-- `fmt.Sprintf("%E", math.Sqrt(q))`, `q ≥ 0` -/
+def fmtESqrt (q : Rat) : String :=
+  if q ≤ 0 then "0.000000E+00" else
+  let e2 := dexp q
+  let e : Int := if e2 % 2 == 0 then e2 / 2 else (e2 - 1) / 2
+  let x := q * pow10 (12 - 2 * e)          -- √x = √q · 10^(6-e) ∈ [10^6, 10^7)
+  let s := isqrt x.floor.toNat
+  let t : Rat := (((2 * s + 1) * (2 * s + 1) : Nat) : Rat)
+  let m := if t < 4 * x then s + 1 else if t == 4 * x then (if s % 2 == 0 then s else s + 1) else s
+  sciText false m e
+
+/-- the pieces of a format filled with already printed values (`%d`, `%E`, `%v` each take one) -/
+def fillPieces : List Piece → List String → Option (List String)
+  | [], [] => some []
+  | [], _ :: _ => none
+  | .lit s :: ps, vs => (fillPieces ps vs).map (s :: ·)
+  | .verb _ :: _, [] => none
+  | .verb _ :: ps, v :: vs => (fillPieces ps vs).map (v :: ·)
+
+/-- one `%d⇥%E⇥%E` row: the id, the weighted Robinson-Foulds sum, the square root of the KF radicand -/
+def rowTextW (g : Glue) (f : Flags) (id : Nat) (w : WStats) : Option String :=
+  match rowEvent g f with
+  | some e =>
+    if !(e.fmt.all fun p => match p with | .verb c => c == 'd' || c == 'E' | .lit _ => true) then none else
+    ((e.args.mapM fun (a : Arg) => match a with
+      | Arg.sum ["st.Id"] => some (toString id)
+      | Arg.sum ["wrf"] => some (fmtE (wrf w))
+      | Arg.other "math.Sqrt(kf)" => some (fmtESqrt (kf2 w))
+      | _ => none).bind (fillPieces e.fmt)).map String.join
+  | none => none
+
+def rowsUntilErrW (g : Glue) (f : Flags) (r : T) (tips sc : Bool) : List T → Nat → Option (List String × Bool)
+  | [], _ => some ([], false)
+  | c :: cs, id =>
+    match compareWeighted0 r c tips sc with
+    | .ok w =>
+      (match rowTextW g f id w, rowsUntilErrW g f r tips sc cs (id + 1) with
+       | some t, some (ts, failed) => some (t :: ts, failed)
+       | _, _ => none)
+    | _ => some ([], true)
+
+/-- `cliOutput` for the mode that prints floats (`--weighted` without `--binary`) -/
+def cliOutputW (g : Glue) (f : Flags) (r : T) (cs : List T) : Option (String × Bool) :=
+  match libCall g f with
+  | some (fn, tips, sc) =>
+    if fn != "CompareWeighted" then none else
+    (match rowsUntilErrW g f r tips sc cs 0 with
+     | some (rows, failed) => some (String.join (headerOf g f ++ (if failed && deferred g f then [] else rows)), failed)
+     | none => none)
   | none => none
 
 /-- the whole of RunE: `if intree2file == "none"` (no `-c`) the command fails before reading
